@@ -1481,6 +1481,95 @@ BENIGN += [
          new=None, fn=_early_return_style, props=ALL.split()),
 ]
 
+# ---- round 7 (data-level faults): DESIGN 10.18 -------------------------------------------------
+_EQW_OLD = ("            repeats = np.exp(log_w - np.amax(log_w)) * equal_weight_boost\n"
+            "            repeats = np.floor(repeats).astype(int) + (\n"
+            "                self.rng.random(len(repeats)) < repeats - np.floor(repeats)\n"
+            "            ).astype(int)\n"
+            "            points = np.repeat(points, repeats, axis=0)\n"
+            "            log_w = np.zeros(np.sum(repeats))\n"
+            "            log_l = np.repeat(log_l, repeats, axis=0)\n"
+            "            if return_blobs:\n"
+            "                blobs = np.repeat(blobs, repeats, axis=0)\n")
+
+
+def _eqw_new(base):
+    return ("            select = np.flatnonzero(log_w > -np.inf)\n"
+            "            repeats = (np.exp(log_w[select] - np.amax(log_w)) *\n"
+            "                       equal_weight_boost)\n"
+            "            repeats = np.floor(repeats).astype(int) + (\n"
+            "                self.rng.random(len(repeats)) < repeats - np.floor(repeats)\n"
+            "            ).astype(int)\n"
+            "            index = np.repeat(%s, repeats)\n"
+            "            points = points[index]\n"
+            "            log_w = np.zeros(len(index))\n"
+            "            log_l = log_l[index]\n"
+            "            if return_blobs:\n"
+            "                blobs = blobs[index]\n" % base)
+
+
+MUTANTS += [
+    M('counters-reset-after-the-new-bound-write', S,
+      "                    self.n_update_iter = 0\n                    self.n_like_iter = 0\n"
+      "                    if self.filepath is not None:\n"
+      "                        self.write(self.filepath, overwrite=True)\n",
+      "                    if self.filepath is not None:\n"
+      "                        self.write(self.filepath, overwrite=True)\n"
+      "                    self.n_update_iter = 0\n                    self.n_like_iter = 0\n",
+      'C05'),
+    M('phase-shift-written-sorted', PS, "        group.attrs['periodic'] = self.periodic\n",
+      "        group.attrs['periodic'] = np.sort(self.periodic)\n", 'C09 C16 C05'),
+    M('phase-shift-read-unique', PS, "        bound.periodic = group.attrs['periodic']\n",
+      "        bound.periodic = np.unique(group.attrs['periodic']).astype(int)\n", 'C09 C16 C05'),
+    M('equal-weight-index-into-the-selection', S, _EQW_OLD, _eqw_new('np.arange(len(select))'),
+      'C14'),
+    M('fixed-value-cast-to-input-dtype', PR,
+      "                param_dict[key] = np.ones(phys_points.shape[:-1]) * dist\n",
+      "                param_dict[key] = np.full(phys_points.shape[:-1], dist,\n"
+      "                                          dtype=phys_points.dtype)\n", 'C15'),
+    M('type-gate-isscalar', PR,
+      "        elif isinstance(dist, numbers.Number) or hasattr(dist, 'isf'):\n",
+      "        elif np.isscalar(dist) or hasattr(dist, 'isf'):\n", 'C15'),
+    M('trim-median-includes-the-candidate', U,
+      "        if log_r[index] - np.median(np.delete(log_r, index)) < -np.log(\n"
+      "                threshold):\n",
+      "        if log_r[index] - np.median(log_r) < -np.log(threshold):\n", 'C13'),
+    M('exploration-counts-aliased', S,
+      "                    self.shell_n_sample_exp = np.copy(self.shell_n_sample)\n",
+      "                    self.shell_n_sample_exp = self.shell_n_sample\n", 'C12 C02'),
+    M('exploration-counts-asarray', S,
+      "                    self.shell_n_sample_exp = np.copy(self.shell_n_sample)\n",
+      "                    self.shell_n_sample_exp = np.asarray(self.shell_n_sample)\n",
+      'C12 C02'),
+    M('prune-guard-all-empty', S, "                    if np.any(self.shell_n == 0):\n",
+      "                    if np.all(self.shell_n == 0):\n", 'C12'),
+]
+
+BENIGN += [
+    dict(id='phase-shift-written-asarray', file=PS,
+         old="        group.attrs['periodic'] = self.periodic\n",
+         new="        group.attrs['periodic'] = np.asarray(self.periodic)\n", props=ALL.split()),
+    dict(id='equal-weight-selected-rows', file=S, old=_EQW_OLD, new=_eqw_new('select'),
+         props=ALL.split()),
+    dict(id='fixed-value-full-float', file=PR,
+         old="                param_dict[key] = np.ones(phys_points.shape[:-1]) * dist\n",
+         new="                param_dict[key] = np.full(phys_points.shape[:-1], dist,\n"
+             "                                          dtype=float)\n", props=ALL.split()),
+    dict(id='trim-reference-by-mask', file=U,
+         old="        if log_r[index] - np.median(np.delete(log_r, index)) < -np.log(\n"
+             "                threshold):\n",
+         new="        others = log_r[np.arange(len(log_r)) != index]\n"
+             "        if log_r[index] - np.median(others) < -np.log(threshold):\n",
+         props=ALL.split()),
+    dict(id='exploration-counts-copy-method', file=S,
+         old="                    self.shell_n_sample_exp = np.copy(self.shell_n_sample)\n",
+         new="                    self.shell_n_sample_exp = self.shell_n_sample.copy()\n",
+         props=ALL.split()),
+    dict(id='prune-guard-any-method', file=S,
+         old="                    if np.any(self.shell_n == 0):\n",
+         new="                    if (self.shell_n == 0).any():\n", props=ALL.split()),
+]
+
 MUTANTS.append(dict(id='union-replace-helper-trim-without-reset', file=U,
                     old="            self.block = np.delete(self.block, index)", new=None,
                     fn=_union_replace_helper_no_reset, props='C01 C07 C08 C13'.split()))
